@@ -199,11 +199,16 @@ def kp_contract(q, cls, unsup, xname, iname):
              locals_types={"neighbours_idx": "list[int]"},
              requires=lambda v: kp_requires(v, unsup, xname, iname),
              ensures=lambda v, old, result: ([] if MODE.kind != "sym" else [
-                 ("answers", conj(eq(length(result if not unsup else result[0]), length(getattr(v, xname))),
-                                  forall(0, length(getattr(v, xname)), lambda a: eq(
-                                      (result if not unsup else result[0])[a], v.pred_subgraph.nodes[a].predicted_label)))),
+                 ("len", conj(eq(length(result if not unsup else result[0]), length(getattr(v, xname))),
+                              forall(0, length(getattr(v, xname)), lambda a: ge((result if not unsup else result[0])[a], 0)))),
+             ] + ([
+                 # (while predict itself is verified) the returned lists are the labels / clusters assigned in the loop,
+                 # which the per-query assertion after:loop4 characterises
+                 ("answers", forall(0, length(getattr(v, xname)), lambda a: eq(
+                     (result if not unsup else result[0])[a], v.pred_subgraph.nodes[a].predicted_label))),
              ] + ([("clusters", forall(0, length(getattr(v, xname)), lambda a: eq(
-                 result[1][a], v.pred_subgraph.nodes[a].cluster_label)))] if unsup else [])),
+                 result[1][a], v.pred_subgraph.nodes[a].cluster_label)))] if unsup else [])
+                 if v.has("pred_subgraph") else [])),
              modifies=[],
              ghost=GHOST_KP,
              hints=[("after:loop4", lambda v, old: kp_answer(v, old, unsup))],
